@@ -64,7 +64,7 @@ def _one(module, pct, hard_timeout, env_extra):
                     for k, v in res.items()}
 
 
-def run_modules(modules, per_condition_timeout=60, workers=8, env=None):
+def run_modules(modules, per_condition_timeout=60, workers=8, env=None, retry=True):
     """modules: list of importable module names under /verif (e.g. from chrun.gen_module).
     Returns {'module.function': (verdict, message, module_seconds)}."""
     out = {}
@@ -79,4 +79,12 @@ def run_modules(modules, per_condition_timeout=60, workers=8, env=None):
             module, res = f.result()
             for fn, v in res.items():
                 out[f'{module}.{fn}'] = v
+    # a condition that hangs inside one path takes the rest of its module with it: conditions that got no verdict
+    # at all are re-run one process each
+    missing = [k for k, v in out.items() if v[0] == 'unknown' and v[1].startswith('no verdict reported')]
+    if missing and retry:
+        from . import chrun
+        again = chrun.run(missing, per_condition_timeout=per_condition_timeout, workers=workers, env=env)
+        for k, v in again.items():
+            out[k] = v
     return out
